@@ -93,3 +93,35 @@ Theorem c04_frames_end_with_crlf : forall buf raw v rest, decode buf = DFrame ra
 Proof. exact frame_ends_with_crlf_lemma. Qed.
 Check c04_frames_end_with_crlf : forall buf raw v rest, decode buf = DFrame raw v rest -> exists w0, raw = w0 ++ [13; 10].
 Print Assumptions c04_frames_end_with_crlf.
+
+(* ---- end to end (E2EGen.v), for ANY language of responses that the parser round-trips (enc; Properties/C03.v instantiates
+   it with the RFC spellings): a server sends the values of s in any of their spellings, then a piece P of a further
+   response (any buffer the codec calls incomplete; P = [] for none), then closes.  Whatever the chunking and the
+   not-ready results: the frames are exactly the responses sent, and the end is clean iff P is empty, the error
+   "bytes remaining on stream" otherwise -- frames and ending depend on the bytes alone *)
+From TI Require Import E2EGen.
+Theorem c04_conformant_then_eof : forall (enc : val -> list byte -> Prop),
+  (forall v w, enc v w -> forall rest, parse (w ++ rest) = ROk rest v (nlen w)) ->
+  forall s P fuel rd fs st' more,
+  E2EGen.conformant enc s -> decode P = DNone -> data_only rd -> bytes_of rd = wire s ++ P ->
+  fr_drain fuel rf_init rd = (fs, PPending, st', []) ->
+  fs = expected s /\
+  fr_poll st' (REof :: more) =
+    match P with
+    | [] => (mk_rf true false false [], PNone, more)
+    | _ => (mk_rf true true true P, PItem IErrRemaining, more)
+    end.
+Proof. exact E2EGen.conformant_then_eof_lemma. Qed.
+Check c04_conformant_then_eof : forall (enc : val -> list byte -> Prop),
+  (forall v w, enc v w -> forall rest, parse (w ++ rest) = ROk rest v (nlen w)) ->
+  forall s P fuel rd fs st' more,
+  E2EGen.conformant enc s -> decode P = DNone -> data_only rd -> bytes_of rd = wire s ++ P ->
+  fr_drain fuel rf_init rd = (fs, PPending, st', []) ->
+  fs = expected s /\
+  fr_poll st' (REof :: more) =
+    match P with
+    | [] => (mk_rf true false false [], PNone, more)
+    | _ => (mk_rf true true true P, PItem IErrRemaining, more)
+    end.
+Print Assumptions c04_conformant_then_eof.
+
